@@ -483,6 +483,19 @@ def run_loop(eng, node, st, head, body_prefix=None, extra_havoc=(), qual_ord=Non
                     s2e = s2
                     if eng.loop_step is not None:
                         eng.loop_step(s2e, node)
+                    for i, hint in enumerate(spec.hints):
+                        g = eng.spec_eval(hint, s2e)
+                        hname = "inv-hint.%s#%d.%d" % (q, k, i)
+                        hst = eng.oblige(hname, "loop-hint", s2e, g)
+                        if hst == "proved":
+                            s2e.assume(g)
+                        elif hst == "refuted":
+                            # a hint is a step of the proof, not part of the contract: one that does not hold is simply not
+                            # used (the invariant obligations below decide); it is recorded as open, never as a violation
+                            for ob in eng.obls:
+                                if ob.name == hname:
+                                    ob.status, ob.model, ob.detail = "unknown", None, None
+                                    ob.reason = "proof hint does not hold on this path (not used as a hypothesis)"
                     for i, inv in enumerate(spec.inv):
                         g = eng.spec_eval(inv, s2e)
                         eng.oblige("inv-pres.%s#%d.%d" % (q, k, i), "loop", s2e, g)
